@@ -200,6 +200,7 @@ type ProcCase struct {
 	AnsDelayMs int    `json:"ansDelayMs,omitempty"` // fake time the answerer lets pass before each answer
 	Rounds   bool     `json:"rounds,omitempty"` // answer the r-th request of every activity before any (r+1)-th
 	LogProps bool     `json:"logProps,omitempty"`
+	Stress   *Stress  `json:"stress,omitempty"`  // additional concurrent clients (C17)
 	RealIDs  bool     `json:"realIDs,omitempty"` // use the engine's real default id generator (C20)
 	Meta     map[string]int `json:"meta,omitempty"`
 	Objs     map[string]any `json:"objs,omitempty"` // initial data objects
@@ -215,6 +216,14 @@ type WaiterPlan struct {
 	Again     bool `json:"again,omitempty"`     // after an expired wait, wait again without deadline
 	DelayMs   int  `json:"delayMs,omitempty"`   // fake time before the first call
 	Repeat    int  `json:"repeat,omitempty"`    // additional calls after a successful one
+}
+
+// Stress adds client goroutines that use the instance concurrently with the driver proper.
+type Stress struct {
+	Subs        int  `json:"subs"`        // subscribers that join, read a few traces and leave, again and again
+	Readers     int  `json:"readers"`     // goroutines reading variables / data objects on every trace
+	ConcAnswers bool `json:"concAnswers"` // every Do call from its own goroutine
+	Waiters     int  `json:"waiters"`     // additional WaitUntilComplete callers
 }
 
 // EvPlan delivers one event.
@@ -287,6 +296,7 @@ func (c *ProcCase) Main() {
 	stop := make(chan struct{})
 	var ntraces simlog.Cell
 	var nlistening simlog.Cell
+	tick := make(chan struct{}, 1)
 	var idle simlog.Cell // 1 while the answerer has nothing it intends to do
 	idle.Set(1)
 	cancelled := make(chan struct{})
@@ -306,6 +316,12 @@ func (c *ProcCase) Main() {
 			L.Add("t:"+k, a, b, n)
 			if k == "listening" {
 				nlistening.Add(1)
+			}
+			if c.Stress != nil {
+				select {
+				case tick <- struct{}{}:
+				default:
+				}
 			}
 			if tt, ok := u.(bpmn.TaskTrace); ok {
 				seq[a]++
@@ -359,6 +375,55 @@ func (c *ProcCase) Main() {
 				}
 			}
 		}()
+	}
+
+	if st := c.Stress; st != nil {
+		for i := 0; i < st.Subs; i++ {
+			i := i
+			go func() {
+				for round := 0; ; round++ {
+					ch := make(chan tracing.ITrace, (i+round)%4)
+					proc.Tracer().SubscribeChannel(ch)
+					env.fault("subscriber-joins-and-leaves")
+					n := 1 + (i+round)%5
+					closed := false
+					for k := 0; k < n && !closed; k++ {
+						select {
+						case _, ok := <-ch:
+							closed = !ok
+						case <-stop:
+							proc.Tracer().Unsubscribe(ch)
+							return
+						case <-ctx.Done():
+							return
+						}
+					}
+					if closed {
+						return
+					}
+					proc.Tracer().Unsubscribe(ch)
+				}
+			}()
+		}
+		for i := 0; i < st.Readers; i++ {
+			go func() {
+				for {
+					select {
+					case <-tick:
+					case <-stop:
+						return
+					case <-ctx.Done():
+						return
+					}
+					env.fault("concurrent-variable-read")
+					for _, it := range proc.Locator().CloneVariables() {
+						_ = it.Value()
+					}
+					_ = proc.Locator().CloneItems(data.LocatorObject)
+					_, _ = proc.Locator().GetVariable("r_T1")
+				}
+			}()
+		}
 	}
 
 	// answerer
@@ -551,7 +616,10 @@ func (c *ProcCase) Main() {
 			if calls > 1 {
 				env.fault("duplicate-answer")
 			}
-			if spec.Conc && calls > 1 {
+			if c.Stress != nil && c.Stress.ConcAnswers && calls == 1 {
+				env.fault("answer-from-own-goroutine")
+				go doOne(1)
+			} else if spec.Conc && calls > 1 {
 				env.fault("concurrent-answers")
 				dd := make(chan struct{}, calls)
 				for ci := 1; ci <= calls; ci++ {
@@ -649,6 +717,11 @@ func (c *ProcCase) Main() {
 	waiters := c.Waiters
 	if len(waiters) == 0 {
 		waiters = []WaiterPlan{{}}
+	}
+	if c.Stress != nil {
+		for i := 0; i < c.Stress.Waiters; i++ {
+			waiters = append(waiters, WaiterPlan{})
+		}
 	}
 	for wi, wp := range waiters {
 		wi, wp := wi, wp
